@@ -8,9 +8,9 @@ R.model("Unpacker", fields={"_Unpacker__buf": "bytes", "_Unpacker__pos": "int"})
 R.macro("pbuf", ["p"], "p._Packer__buf.data")
 
 R.contract("Packer.__init__", params={"self": "Packer"},
-           ensures=["pbuf(self) == b''"], modifies=["self._Packer__buf"])
+           ensures=["pbuf(self) == b''", "fresh(self._Packer__buf)"], modifies=["self._Packer__buf"])
 R.contract("Packer.reset", params={"self": "Packer"},
-           ensures=["pbuf(self) == b''"], modifies=["self._Packer__buf"])
+           ensures=["pbuf(self) == b''", "fresh(self._Packer__buf)"], modifies=["self._Packer__buf"])
 R.contract("Packer.get_buffer", params={"self": "Packer"}, returns="bytes",
            ensures=["result == pbuf(self)"])
 R.contract("Packer.pack_uint", params={"self": "Packer", "x": "int"},
